@@ -180,7 +180,7 @@ Example C02_reachable_example :
   exists s,
     lrun (Build_cfg true true) (Build_flags false false) pos1 sz0
       (cinit (Build_cfg true true) [1] 30 true [[OPut 0 false; ORead KHas 0]])
-      (repeat (LThread 0) 7 ++ repeat (LThread 1) 9 ++ repeat (LThread 1) 2) = Some s /\
+      (repeat (LThread 0) 7 ++ repeat (LThread 1) 9 ++ repeat (LThread 1) 3) = Some s /\
     g_active (g_sh s) = true /\ mem 0 (g_store (g_sh s)) = true /\
     lookup 0 (g_cache (g_sh s)) = Some (CSize 0) /\ t_res (tget s 1) = [RBool true; ROk].
 Proof. eexists. vm_compute. repeat split. Qed.
